@@ -801,6 +801,8 @@ struct Dumper
 	O["k"] = "for";
 	if (X->getInit ())
 	  O["init"] = stmt (X->getInit ());
+	if (X->getConditionVariable ())
+	  O["var"] = varDecl (X->getConditionVariable ());
 	if (X->getCond ())
 	  O["c"] = expr (X->getCond ());
 	if (X->getInc ())
